@@ -413,11 +413,26 @@ func (fv *FV) globalObj(st *State, obj types.Object) (Term, bool) {
 }
 
 func (fv *FV) funcValue(f *types.Func) Term {
-	name := "fn$" + cleanName(shortPkg(pkgPathOf(f))+"."+f.Name())
+	f = f.Origin()
+	qual := f.Name()
+	if sig, ok := f.Type().(*types.Signature); ok && sig.Recv() != nil {
+		rt := sig.Recv().Type()
+		if p, ok := rt.(*types.Pointer); ok {
+			rt = p.Elem()
+		}
+		if n, ok := rt.(*types.Named); ok {
+			qual = n.Obj().Name() + "." + qual
+		}
+	}
+	name := "fn$" + cleanName(shortPkg(pkgPathOf(f))+"."+qual)
 	if !fv.declared[name] {
 		fv.declared[name] = true
 		fv.decls = append(fv.decls, fmt.Sprintf("(declare-const %s Int)", name))
 		fv.axioms = append(fv.axioms, app(">", name, "0"))
+		for _, other := range fv.funcConstNames { // different functions are different values
+			fv.axioms = append(fv.axioms, not(eq(name, other)))
+		}
+		fv.funcConstNames = append(fv.funcConstNames, name)
 	}
 	return Term{S: name, Sort: sInt, T: f.Type()}
 }
